@@ -101,3 +101,7 @@ mod tests {
         assert_ron_snapshot!(format!("chunk-size{chunk_size}"), chunks);
     }
 }
+
+#[cfg(kani)]
+#[path = "/verif/harness/chunker_fixed_size.rs"]
+pub(crate) mod verif_harness;
